@@ -133,7 +133,9 @@ def run_case(d):
             try:
                 o, Rxx, coef, ecov = gr.fit_model(x1, x2, max_order=d["max_order"], **kw)
             except ValueError as e:
-                return {"err": "ValueError", "crit": hexl(table)}
+                if d["order"] is None and "did not converge" in str(e):
+                    return {"err": "ValueError", "noconv": True, "crit": hexl(table)}
+                raise
             return {"order": int(o), "Rxx": hexl(Rxx), "Rxx_shape": list(np.shape(Rxx)), "coef": hexl(coef),
                     "coef_shape": list(np.shape(coef)), "ecov": hexl(ecov), "crit": hexl(table)}
         if k == "gen":
@@ -187,7 +189,7 @@ def make_criterion(d, ut, alg, x1, x2):
 def case_coq(d, o):
     """Coq term of the case, or None when the outcome is not expressible (exception, nan)"""
     k = d["kind"]
-    if "err" in o and not (k == "fit" and o["err"] == "ValueError"):
+    if "err" in o and not (k == "fit" and o.get("noconv")):
         return None
     if k == "lwr":
         r, a, s = arr(d["r"]), arr(o["a"]).reshape(o["shape"]), arr(o["sigma"])
@@ -289,7 +291,7 @@ def oracle(d, o):
     k = d["kind"]
     key = "C11/" + {"lwr": "lwr_recursion", "ld": "AR_est_LD", "cov": "crosscov_vector", "mar": "MAR_est_LWR",
                     "fit": "fit_model", "gen": "generate_mar", "crit": "information_criterion"}[k]
-    if "err" in o and not (k == "fit" and o["err"] == "ValueError"):
+    if "err" in o and not (k == "fit" and o.get("noconv")):
         return Fail(key + "/exception", "raised %s: %s" % (o["err"], o.get("msg")), o["err"], "a result")
     if k == "lwr":
         r, a, s = arr(d["r"]), arr(o["a"]).reshape(o["shape"]), arr(o["sigma"])
@@ -304,11 +306,11 @@ def oracle(d, o):
                 return Fail(key + "/sigma-posdef", "innovation covariance not positive definite (min eigenvalue %.3e)" % ev.min(),
                             float(ev.min()), "> 0")
         nc = r.shape[1]
-        if nc == 1:
+        if nc == 1 and len(a) >= 1:
             import nitime.algorithms as alg
             w, b = alg.AR_est_LD(None, len(a), rxx=r[:, 0, 0])
-            sc = 1 + np.abs(w).max()
-            if np.abs(a[:, 0, 0] + w).max() > TOL * sc or abs(s[0, 0] - b) > TOL * (1 + abs(b)):
+            sc = 1 + (np.abs(w).max() if len(w) else 0.0)
+            if len(w) and np.abs(a[:, 0, 0] + w).max() > TOL * sc or abs(s[0, 0] - b) > TOL * (1 + abs(b)):
                 return Fail(key + "/one-channel", "one channel: coefficients are not minus the Levinson-Durbin ones",
                             {"lwr": hexl(a[:, 0, 0]), "ld": hexl(w)}, "a = -w")
         if d.get("perm"):
@@ -316,7 +318,7 @@ def oracle(d, o):
             p = d["perm"]
             rp = r[:, p][:, :, p]
             ap, sp = alg.lwr_recursion(rp)
-            sc = 1 + np.abs(a).max()
+            sc = 1 + (np.abs(a).max() if a.size else 0.0)
             if (np.abs(ap - a[:, p][:, :, p]).max() if len(a) else 0) > TOL * sc or \
                     np.abs(sp - s[p][:, p]).max() > TOL * (1 + np.abs(s).max()):
                 return Fail(key + "/permutation", "relabelling channels by %s does not permute the result" % p,
@@ -501,15 +503,30 @@ def gen_lwr(ctx, rs):
     return d
 
 
+def leading_min_sv(r):
+    """smallest singular value over the nested block-Toeplitz matrices T_1..T_{P+1}
+       (det T_{p+1} = det T_p det sigf_p: all of them regular <=> every inverted matrix is regular)"""
+    P1, nc = r.shape[0], r.shape[1]
+    T = np.zeros((nc * P1, nc * P1))
+    for i in range(P1):
+        for j in range(P1):
+            T[i * nc:(i + 1) * nc, j * nc:(j + 1) * nc] = r[i - j] if i >= j else r[j - i].T
+    return min(np.linalg.svd(T[:k * nc, :k * nc], compute_uv=False).min() for k in range(1, P1 + 1))
+
+
 def gen_lwr_free(ctx, rs):
-    """symmetric r(0), arbitrary other lags (as test_lwr does): the algebra does not need more"""
-    nc = int(rs.randint(1, 5))
-    P = int(rs.randint(1, 5))
-    r = rs.randn(P + 1, nc, nc) * 0.3
-    r[0] = r[0] @ r[0].T + np.eye(nc)
-    r = grid(r, 12)
-    r[0] = np.triu(r[0]) + np.triu(r[0], 1).T
-    return {"kind": "lwr", "r": hexl(r), "pd": False, "src": "free"}
+    """symmetric r(0), arbitrary other lags (as test_lwr does): the algebra needs no more than
+       symmetry of r(0) and regular error covariances"""
+    for _ in range(200):
+        nc = int(rs.randint(1, 5))
+        P = int(rs.randint(1, 5))
+        r = rs.randn(P + 1, nc, nc) * 0.3
+        r[0] = r[0] @ r[0].T + np.eye(nc)
+        r = grid(r, 12)
+        r[0] = np.triu(r[0]) + np.triu(r[0], 1).T
+        if leading_min_sv(r) > 0.05:
+            return {"kind": "lwr", "r": hexl(r), "pd": False, "src": "free"}
+    raise RuntimeError("no regular free sequence found")
 
 
 def gen_ld(ctx, rs):
